@@ -75,6 +75,14 @@ CHECKS = {
          "Generated thread plans (1..16 real threads, mixed succeeding/failing operations, clone/drop overlap) against a sequential model, in child processes so crashes are observed; probes after every plan show failed operations did not alter the shared keys.",
          "Interleavings are sampled by the OS scheduler (stress, not enumeration); C libraries are not race-instrumented.",
          "model-based stress testing of generated concurrent plans (proptest) with a sequential oracle", "DESIGN.md §5 C17"),
+ "C18": ("progs", "exploration",
+         "A generated catalogue (about 2500 programs: key crate x token crate x purpose x key kind x operation, printing/serialising probes, field access, coercions) with a type model predicting compile/reject, decided by rustc: every predicted-reject program must fail on its marked line, every well-typed twin must compile. The catalogue is enumerated completely.",
+         "rustc is the ground truth; programs take the misused values as function parameters.",
+         "generated-program testing: enumerated misuse catalogue with a type-model oracle, compiled with cargo check", "DESIGN.md §5 C18"),
+ "C19": ("progs", "exploration",
+         "Every distinct closure of each crate's feature flags is built with cargo check (exhaustive); generated probe crates on reduced builds replay full-build fixtures through every available operation and their output is accepted by the full build and the reference model (seeded closures quick, all closures thorough).",
+         "cargo check decides 'builds'; the behaviour part samples closures in the quick tier.",
+         "configuration enumeration + generated probe programs, differential against the full build and the reference model", "DESIGN.md §5 C19"),
 }
 
 NOT_APPLICABLE = []  # filled while properties are still being built
